@@ -356,7 +356,7 @@ func (s *Sim) DumpGoroutines() string {
 		var keep []string
 		keep = append(keep, lines[0])
 		for i := 1; i+1 < len(lines); i += 2 {
-			if strings.Contains(lines[i+1], "/core/") || strings.Contains(lines[i+1], "/common/") || strings.Contains(lines[i+1], "/executor/") {
+			if strings.Contains(lines[i+1], "/core/") || strings.Contains(lines[i+1], "/common/") || strings.Contains(lines[i+1], "/executor/") || strings.Contains(lines[i+1], "mesos-go") {
 				keep = append(keep, "  "+strings.TrimSpace(lines[i])+" @ "+strings.TrimSpace(strings.SplitN(strings.TrimSpace(lines[i+1]), " ", 2)[0]))
 			}
 		}
